@@ -178,7 +178,7 @@ func (e *StuckError) Error() string {
 }
 
 // FeedTimeout bounds how long Feed waits for the wallet to take a value.
-var FeedTimeout = 15 * time.Second
+var FeedTimeout = 45 * time.Second
 
 func (s *Sim) send(v interface{}, what string) {
 	select {
